@@ -336,7 +336,7 @@ def run(tier, replay=None):
     report = common.Report("C14", tier)
     if replay:
         return do_replay(replay)
-    proof = common.prove(report, "C14", ["varconsts", "jis8", "itemconsts"], extra_targets=["Run/C14Run.vo"])
+    proof = common.prove(report, "C14", ["varconsts", "jis8", "itemconsts", "pyvarhdr", "pyitemhdr"], extra_targets=["Run/C14Run.vo"])
     ok, log = common.coq_make(["Run/C14Run.vo"])
     if not ok:
         report.violation({"kind": "broken-obligation", "obligation": "model Run/C14Run.vo does not build against the regenerated constants",
